@@ -56,6 +56,7 @@ func isErrParamNilTest(p *eng.Prog, cond ssa.Value, param ssa.Value) (isTest boo
 
 func runC19(c *eng.Ctx) {
 	p := c.P
+	stateMutexReleasedWhenAStageHookPanics(c)
 	responseErrorAlwaysExamined(c)
 	stagePoolsAreDistinct(c)
 
@@ -448,10 +449,27 @@ func runC19(c *eng.Ctx) {
 		latch := c.Some(cs, eng.StoreField(smT+".err"), "store to the error latch sm.err")
 		dec := c.Some(cs, eng.StoreField(smT+".pending"), "pending.Dec")
 		ls := p.Locks(cs, nil)
+		// the stage error as seen at an instruction: completeStage's own parameter, or the parameter of a helper that is handed it
+		errAt := func(at ssa.Instruction) ssa.Value {
+			g := at.Parent()
+			if g == cs {
+				return errP
+			}
+			for _, q := range g.Params {
+				if isErrorType(q.Type()) && eng.UpParamVia(cs, eng.Site{Fn: g, Instr: at}, q) == ssa.Value(errP) {
+					return q
+				}
+			}
+			return nil
+		}
 		for i, s := range latch {
 			v, _ := storedValue(s.Instr)
-			c.Check(v == ssa.Value(errP), fmt.Sprintf("latch-value[%d]", i), s.Instr, cs, "the latch stores the stage's error", "stores "+p.Desc(v))
-			c.Check(ls.At(s.Instr).HasField(smT+".mutex", true), fmt.Sprintf("latch-locked[%d]", i), s.Instr, cs, "the latch is written under sm.mutex", "held: "+ls.At(s.Instr).String())
+			c.Check(v != nil && v == errAt(s.Instr), fmt.Sprintf("latch-value[%d]", i), s.Instr, cs, "the latch stores the stage's error", "stores "+p.Desc(v))
+			lsAt := ls
+			if s.Instr.Parent() != cs {
+				lsAt = p.Locks(s.Instr.Parent(), nil) // a helper that takes the mutex itself
+			}
+			c.Check(lsAt.At(s.Instr).HasField(smT+".mutex", true), fmt.Sprintf("latch-locked[%d]", i), s.Instr, cs, "the latch is written under sm.mutex", "held: "+lsAt.At(s.Instr).String())
 			_, after := eng.Reaches(cs, s.Instr, dec, nil)
 			c.Check(after, fmt.Sprintf("latch-before-dec[%d]", i), s.Instr, cs, "the latch is written before pending is decremented", "no decrement follows the latch store")
 		}
@@ -469,7 +487,11 @@ func runC19(c *eng.Ctx) {
 			if !ok {
 				continue
 			}
-			if t, nonNilOnTrue := isErrParamNilTest(p, ifi.Cond, errP); t {
+			ep := errAt(ifi)
+			if ep == nil {
+				continue
+			}
+			if t, nonNilOnTrue := isErrParamNilTest(p, ifi.Cond, ep.(*ssa.Parameter)); t {
 				if nonNilOnTrue {
 					forbid = append(forbid, eng.Edge{B: b, Succ: 1})
 				} else {
